@@ -1,10 +1,49 @@
 # C15 registry entry (M is injected by lib/props.py)
 PROP = dict(
     title="Line, plane, sphere, triangle primitives satisfy their geometric definitions",
-    rule="TBD",
-    assumptions=[],
-    technique="TBD",
-    level_text="TBD",
-    level_note="TBD",
-    monitors=[M("c15_geom", ["c15_line.cpp", "c15_plane.cpp", "c15_tri.cpp"], san_scale=0.05)],
+    rule=("Random and constructed configurations, float and double, one sub-check per function family and type (30 sub-checks). "
+          "Every case is a pure function of (seed, sub-check, index); the boundary class is index mod K, so each class is hit "
+          "deterministically: line/point (10 classes: lattice, axis aligned, point on / near the line, far along, large offset, "
+          "point == pos, scales 2^-20 / 2^20); line/line (18 classes: skew, lattice, intersecting, perpendicular, nearly parallel "
+          "with sin graded 0.3 .. 1e-7, one-ulp direction perturbation, exactly parallel with identical / negated / constructor-built "
+          "directions); planes from the three constructor and the three set() forms with moderate / lattice / large-offset / "
+          "wide-exponent coordinates and graded thinness of the defining triangle; reflection of points at graded heights; "
+          "line-plane crossing at graded angles down to cos 1e-7, exactly parallel and in-plane lines; plane*matrix for rotation, "
+          "positive scale, shear, translation, rigid, composed affine, integer unimodular, reflection and identity matrices with 4 "
+          "points of the plane and 3 off-plane test points per case; sphere/line with the origin outside (hit, pointing away, miss), "
+          "inside, at the centre, exactly on the sphere (Pythagorean quadruples), on it after rounding, graded tangency 1e-1..1e-9, "
+          "large offsets, tiny and huge radii; circumscribe on 6 box classes; line/triangle aimed at chosen barycentrics: interior, "
+          "+-10^-1..10^-7 from an edge or a vertex on either side, far outside, back facing, triangle behind the line origin, large "
+          "offset, slivers, lattice, exact edge midpoints, grazing, exactly degenerate (repeated vertex, collinear lattice points) and "
+          "exactly parallel; closestVertex (point form for Vec2/3/4, line form) with graded near-ties; rotatePoint with quarter "
+          "turns, tiny angles, many turns, points near / on the axis; project/orthogonal/reflect on Vec2/3/4 pairs (parallel, "
+          "perpendicular lattice, nearly parallel, |s| below the lengthTiny threshold, magnitudes 2^+-40). "
+          "Oracle: the stored members of the Imath objects (pos, dir, normal, distance, centre, radius, matrix entries, vertices) are "
+          "converted exactly to long double (float cases) / __float128 (double cases) and the geometric definition is evaluated there "
+          "with loops over indices (normal equations with the true |dir|^2, exact quadratic with A = dir.dir, sub-triangle area "
+          "ratios for barycentrics). Each verdict is `error <= B * eps * (magnitude formula)`; the formula carries the conditioning "
+          "(1/sin^2 for closest points of two lines, 1/cos for plane parameters, L^2(M+L)/A for planes through three points, aspect "
+          "ratio and 1/cos for triangle hits, (B^2+4A(v.v+r^2))/sqrt(disc) for sphere roots) and the worst error/formula ratio is "
+          "recorded. Truth-valued results (hit / miss, side, front) are judged only outside the margin the same formula gives; cases "
+          "inside it are counted as skipped_*. Line pairs with |sin| < 1e-3 that are not exactly parallel are only required to give "
+          "finite results and points on their lines. A case is distinct by the hash of its stored inputs (capped lower bound); every "
+          "generated case is non-trivial (no class is a no-op)."),
+    assumptions=["long double / libquadmath arithmetic (+ - * / sqrt sin cos) is correct to its own precision",
+                 "Line3::dir is what Line3's constructor (or a copy / negation of such a direction) stores: the functions' documented precondition 'direction is normalized' is honoured",
+                 "coordinates are moderate (|x| <= ~2^20, vector-algebra functions up to 2^+-40 and down to the lengthTiny range): overflow of squared lengths is outside the statement",
+                 "plane * matrix is driven with affine matrices (last column 0,0,0,1); orientation preserving = positive determinant of the upper 3x3 block",
+                 "reflectVector / reflect are judged against their implemented and mutually consistent convention 2(n.v)n - v (normal component kept, tangential component negated); the sense of rotatePoint against the convention fixed by PyImathTest (l.rotatePoint((2,2,0), pi/2) about +x = (2,0,-2)), i.e. -angle relative to setAxisAngle",
+                 "circumscribe is additionally required to be tight (the header says 'tightly encloses'), reported under its own key circumscribe.*:not_tight",
+                 "gcc on x86-64 without FMA contraction; other compilers' code generation is not observed"],
+    technique=("class-directed randomised execution of the real templates with an extended-precision geometric oracle and conditioning-aware "
+               "tolerance formulas (calibrated: bound >= 8x the worst ratio seen on the pristine tree); exact lattice constructions for "
+               "parallel / degenerate / on-sphere / in-plane cases; ASan/UBSan on a 5% sample"),
+    level_text=("All five headers' functions named in the statement are executed on 2.7*10^7 (quick) / 1.1*10^9 (thorough) configurations "
+                "per run in float and double, every result judged against an independent extended-precision evaluation of the geometric "
+                "definition with a tolerance of a few dozen rounding units of the conditioned magnitude; exact degeneracies (parallel lines, "
+                "zero-area triangles, origin on the sphere, line in the plane) are constructed on integer lattices so that their handling is "
+                "observed rather than hoped for. The input space is continuous, so this is sampling, not exhaustion."),
+    level_note=("sampling of a continuous space; truth-valued results inside the rounding margin (near-tangent, hits within ~10 tolerance units of an edge, "
+                "line pairs with |sin| < 1e-3) are skipped and counted, not judged; huge coordinates (overflowing squares) and projective matrices are not explored"),
+    monitors=[M("c15_geom", ["c15_line.cpp", "c15_plane.cpp", "c15_tri.cpp"], san_scale=0.05, san_scale_thorough=0.02)],
 )
